@@ -91,7 +91,7 @@ func c05Alphabet(ft int) []string {
 }
 
 func c05Burst(cfg FCfg, env *Env) CellResult {
-	opt := vsched.Options{PreemptionBound: 2, EnvBound: 0}
+	opt := vsched.Options{PreemptionBound: 2, EnvBound: 0, HBCache: true}
 	if env.Thorough() {
 		opt = vsched.Options{PreemptionBound: -1, EnvBound: 0, HBCache: true, MaxExecs: 400000}
 	}
